@@ -88,6 +88,18 @@ def handle (j : Json) : Json :=
     match r with
     | .ok v => Json.mkObj [("raises", Json.bool v)]
     | .error e => Json.mkObj [("bad", Json.str e)]
+  | .ok "create" =>
+    match (do pure ((← dCtx (fld j "ctx")), (← dCreate (fld j "d"))) : D (Ctx × CreateD)) with
+    | .ok (c, d) => respondDoc j (renderCreate c d)
+    | .error e => Json.mkObj [("bad", Json.str e)]
+  | .ok "create_index" =>
+    match dIndex (fld j "d") with
+    | .ok d => respondDoc j (renderCreateIndex d)
+    | .error e => Json.mkObj [("bad", Json.str e)]
+  | .ok "drop" =>
+    match dDrop (fld j "d") with
+    | .ok d => respondDoc j (renderDrop d)
+    | .error e => Json.mkObj [("bad", Json.str e)]
   | .ok "tbleq" =>
     match (do pure ((← dTbl (fld j "a")), (← dTbl (fld j "b"))) : D (Tbl × Tbl)) with
     | .ok (a, b) => Json.mkObj [("eq", Json.bool (a.beq b)), ("hash_eq", Json.bool (a.hashKey == b.hashKey)),
